@@ -170,7 +170,7 @@ class C13:
         pi = math.pi
         special = [0.0, pi, -pi, 2 * pi, -2 * pi, pi / 2, -pi / 2, 3 * pi / 2, 4 * pi, pi / 4, -pi / 4, pi / 3, 1e-9, -1e-9,
                    1e-6, 1e-3, -1e-3, 1.0, -1.0, 100.0, -250.5, 6.283185307179586, 3.141592653589793, 1e-12, 12345.678]
-        nrand = 40 if tier == "quick" else 1500
+        nrand = 175 if tier == "quick" else 1500
         for name in ROT:
             for th in special:
                 cases.append(dict(kind="rot", name=name, theta=th))
